@@ -104,6 +104,7 @@ pub fn roomy_cfg(rng: &mut Rng, flavor: Flavor) -> Cfg {
         use_defaults: false,
         recipe: 0,
         decoy: false,
+        reentrant_cb: false,
     }
 }
 
@@ -1151,6 +1152,11 @@ pub fn gen_plan(prop: &str, seed: u64, variant: u64) -> Plan {
     if matches!(prop, "C03" | "C04" | "C05" | "C10") && variant % 9 == 4 && !matches!(p.cfg.keys, KeyMode::Typed { .. }) && !p.has_tag("tick_events") && !p.has_tag("bulk") && !p.has_tag("huge_ttl") {
         p.cfg.decoy = true;
         p.tags.push("decoy_cache".into());
+    }
+    // callbacks that call back into their own cache
+    if matches!(prop, "C01" | "C03" | "C04" | "C05" | "C06" | "C08" | "C10" | "C11" | "C17") && variant % 5 == 1 && p.finale != Finale::DropAll {
+        p.cfg.reentrant_cb = true;
+        p.tags.push("reentrant_callbacks".into());
     }
     // every seventh run goes through the constructor's defaults
     if variant % 7 == 3 {
